@@ -78,6 +78,32 @@ Theorem run_state_confined :
 Proof. exact (all_confined per_run_owners guarded_fields inventory gen_run_writes Inst_Locks.run_writes_confined). Qed.
 Print Assumptions run_state_confined.
 
+(* everything written during Run is owned by the run (or lock-guarded) -- hence nothing that Load built and concurrent
+   Run calls share without a lock is written: no write site of any function that can execute during Run, in any package
+   of the module such a function calls, stores into (takes the address of a field of, appends into a slice of, writes
+   through a local alias of) a struct type reachable from the loaded rule set *)
+Theorem loadtime_objects_read_only :
+  forall w, In w gen_run_writes -> ~ In (snd (fst w)) gen_loadtime_types.
+Proof.
+  exact (loadtime_read_only per_run_owners guarded_fields inventory gen_loadtime_types gen_run_writes
+           Inst_Locks.run_writes_confined Inst_Locks.loadtime_disjoint).
+Qed.
+Print Assumptions loadtime_objects_read_only.
+
+(* the write-site scan is closed under the static calls that leave a package *)
+Theorem run_scan_closed :
+  forall caller pkg callee, In (caller, pkg, callee) gen_run_xcalls -> In pkg gen_scanned_pkgs /\ ~ In callee gen_load_only.
+Proof.
+  pose proof Inst_Locks.run_xcalls_closed as H. apply andb_prop in H. destruct H as [H _].
+  rewrite forallb_forall in H. intros caller pkg callee Hin. specialize (H _ Hin). cbn beta iota in H.
+  apply andb_prop in H. destruct H as [H1 H2]. split.
+  - apply str_in_In. exact H1.
+  - intro Hc. assert (E : str_in callee gen_load_only = true).
+    { unfold str_in. rewrite existsb_exists. exists callee. split; [assumption | apply String.eqb_refl]. }
+    rewrite E in H2. discriminate.
+Qed.
+Print Assumptions run_scan_closed.
+
 Theorem run_arguments_read_only :
   forall w, In w gen_run_writes -> caller_owned (snd (fst w)) = false.
 Proof.
@@ -119,6 +145,17 @@ Proof.
     + apply (step_at [_] _ []). apply ts_rlock. reflexivity.
   - exists [], (T [] [Write 0]), [], (T [(7, MR)] [Read 0; RUnlock 7]), [], 0, true, false. cbn. repeat split; auto.
 Qed.
+
+(* the read-only theorem is not vacuous: a memo field in a shared pattern object is rejected, the same store into the
+   per-run matcher state is admitted *)
+Example memo_in_shared_pattern_rejected :
+  map (confinedb per_run_owners guarded_fields inventory)
+      [("typematch.(*Pattern).MatchIdentical", "typematch.Pattern", "lastType");
+       ("quasigo.eval", "quasigo.Func", "locals");
+       ("(*rulesRunner).runRules", "goRule", "hits");
+       ("typematch.(*Pattern).matchIdentical", "typematch.MatcherState", "typeMatches")]%string
+  = [false; false; false; true].
+Proof. vm_compute. reflexivity. Qed.
 
 (* a lock-order inversion deadlocks in this model (and is rejected by the order check) *)
 Example inversion_rejected :
